@@ -122,12 +122,66 @@ class Extractor:
                 if m is None:
                     if a.startswith('?') or a in getattr(self, 'opaque_ints', set()):
                         raise Unsupported('index expression %s' % self.f.unit.text(n))
+                    al = self.int_alias(a)
+                    if al is not None:
+                        sub[a] = al
+                        continue
                     m = a
+                    if '->' in a and getattr(self, 'locals_ok', False) and self.f.body is not None:
+                        head = a.split('->')[0]
+                        if head.isidentifier():
+                            for vd in walk(self.f.body):
+                                if vd.get('kind') == 'VarDecl' and vd.get('name') == head:
+                                    ca = self.container_alias(vd)
+                                    if ca is not None:
+                                        m = ca + a[len(head):]
+                                    break
                 # loop variables inside paths (t->m[k]->row) keep their '@' form textually
                 for v, pv in ienv.items():
                     m = m.replace('[%s]' % v, '[%s]' % pv)
                 sub[a] = Poly.atom(m)
         return p.subst(sub)
+
+    def int_alias(self, name):
+        """size_t nobj = tscore->row;  -- an integer local with a single definition (and no other assignment, ++ or &) whose value is a shape
+        expression of the parameters is another name for that expression"""
+        cache = self.__dict__.setdefault('_int_alias', {})
+        if name in cache:
+            return cache[name]
+        cache[name] = None
+        if self.f.body is None or not name.isidentifier() or name in self.pidx:
+            return None
+        defs = []
+        for n in walk(self.f.body):
+            k = n.get('kind')
+            if k == 'VarDecl' and n.get('name') == name:
+                if fe.is_float_type(n) or '*' in fe.qual(n):
+                    return None
+                if kids(n):
+                    defs.append(kids(n)[-1])
+            if k in ('BinaryOperator', 'CompoundAssignOperator') and n.get('opcode', '').endswith('=') and n.get('opcode') not in ('==', '!=', '<=', '>='):
+                l0 = strip(kids(n)[0])
+                if l0.get('kind') == 'DeclRefExpr' and l0['referencedDecl'].get('name') == name:
+                    if n.get('opcode') != '=':
+                        return None
+                    defs.append(kids(n)[1])
+            if k == 'UnaryOperator' and n.get('opcode') in ('++', '--', '&'):
+                l0 = strip(kids(n)[0])
+                if l0.get('kind') == 'DeclRefExpr' and l0['referencedDecl'].get('name') == name:
+                    return None
+        if len(defs) != 1:
+            return None
+        d0 = strip(defs[0])
+        if d0.get('kind') not in ('MemberExpr', 'BinaryOperator', 'DeclRefExpr', 'IntegerLiteral') or any(m.get('kind') in ('CallExpr', 'ArraySubscriptExpr') for m in walk(d0)):
+            return None
+        try:
+            val = self.shape_poly(defs[0], {})
+        except Exception:
+            return None
+        if any(a_ == name for a_ in val.atoms()):
+            return None
+        cache[name] = val
+        return val
 
     def arr_of(self, base):
         base = strip(base)
@@ -142,6 +196,9 @@ class Extractor:
             if nm in getattr(self, 'local_arrays', {}):
                 return self.local_arrays[nm]
             if getattr(self, 'locals_ok', False):
+                al = self.container_alias(base['referencedDecl'])
+                if al is not None:
+                    return al
                 return 'L:' + nm
         if base.get('kind') == 'MemberExpr' and getattr(self, 'locals_ok', False):
             b2 = strip(kids(base)[0])
@@ -150,6 +207,32 @@ class Extractor:
             if b2.get('kind') == 'DeclRefExpr':
                 return '%s->%s' % (b2['referencedDecl'].get('name'), base.get('name'))      # field of a local argument record
         return None
+
+    def container_alias(self, decl):
+        """matrix *loadings = model->loadings;  -- a local that is initialised once with a parameter or a field of a parameter and never assigned again
+        is another name for it"""
+        cache = self.__dict__.setdefault('_alias_cache', {})
+        did = decl.get('id')
+        if did in cache:
+            return cache[did]
+        cache[did] = None
+        if decl.get('kind') != 'VarDecl' or self.f.body is None:
+            return None
+        init = None
+        for n in walk(self.f.body):
+            if n.get('kind') == 'VarDecl' and n.get('id') == did and kids(n):
+                init = kids(n)[-1]
+            if n.get('kind') in ('BinaryOperator', 'CompoundAssignOperator') and n.get('opcode', '').endswith('=') and n.get('opcode') not in ('==', '!=', '<=', '>=') \
+                    and fe.ref_id(kids(n)[0]) == did:
+                return None
+            if n.get('kind') == 'UnaryOperator' and n.get('opcode') == '&' and fe.ref_id(kids(n)[0]) == did:
+                return None                     # NewMatrix(&X, ...): a container of its own
+        if init is None:
+            return None
+        i0 = strip(init)
+        if i0.get('kind') == 'MemberExpr' or (i0.get('kind') == 'DeclRefExpr' and i0['referencedDecl'].get('name') in self.pidx):
+            cache[did] = self.arr_of(i0)
+        return cache[did]
 
     def cell_ref(self, n, ienv):
         """(array, [idx Poly]) for X->data[i][j], V->data[i], T->m[k]->data[i][j] and the accessor calls; None otherwise"""
@@ -166,6 +249,10 @@ class Extractor:
         while n.get('kind') == 'ArraySubscriptExpr':
             idx.insert(0, kids(n)[1])
             n = strip(kids(n)[0])
+        if idx and n.get('kind') == 'DeclRefExpr' and n['referencedDecl'].get('id') in getattr(self, 'row_alias', {}):
+            # a cached row pointer  (double *Ei = E->data[i];  ...  Ei[j])  stands for the cell it points into
+            arr, pre_idx = self.row_alias[n['referencedDecl']['id']]
+            return arr, list(pre_idx) + [self.shape_poly(x, ienv) for x in idx]
         if not idx or not (n.get('kind') == 'MemberExpr' and n.get('name') == 'data'):
             return None
         base = strip(kids(n)[0])
@@ -179,6 +266,39 @@ class Extractor:
         if arr is None:
             return None
         return arr, [self.shape_poly(x, ienv) for x in pre + idx]
+
+    @staticmethod
+    def _is_zero_lit(x):
+        v = strip(x)
+        while v.get('kind') == 'ParenExpr':
+            v = strip(kids(v)[0])
+        if v.get('kind') == 'UnaryOperator' and v.get('opcode') in ('+', '-'):
+            v = strip(kids(v)[0])
+        try:
+            return v.get('kind') in ('FloatingLiteral', 'IntegerLiteral') and float(v.get('value')) == 0.0
+        except (TypeError, ValueError):
+            return False
+
+    def bind_row_alias(self, did, init, ienv):
+        """double *row = X->data[i];  (or  T->m[k]->data[i]):  remember which row the pointer stands for; anything else forgets the pointer"""
+        self.row_alias = dict(getattr(self, 'row_alias', {}))
+        self.row_alias.pop(did, None)
+        e = strip(init)
+        idx = []
+        while e.get('kind') == 'ArraySubscriptExpr':
+            idx.insert(0, kids(e)[1])
+            e = strip(kids(e)[0])
+        if len(idx) == 1 and e.get('kind') == 'MemberExpr' and e.get('name') == 'data':
+            base = strip(kids(e)[0])
+            pre = []
+            if base.get('kind') == 'ArraySubscriptExpr':
+                b2 = strip(kids(base)[0])
+                if b2.get('kind') == 'MemberExpr' and b2.get('name') == 'm':
+                    pre = [kids(base)[1]]
+                    base = strip(kids(b2)[0])
+            arr = self.arr_of(base)
+            if arr is not None:
+                self.row_alias[did] = (arr, [self.shape_poly(x, ienv) for x in pre + idx])
 
     # ---- expressions
     def rat(self, n, ienv, fenv):
@@ -196,6 +316,13 @@ class Extractor:
             a = self.rat(kids(n)[0], ienv, fenv)
             b = self.rat(kids(n)[1], ienv, fenv)
             return {'+': a.__add__, '-': a.__sub__, '*': a.__mul__, '/': a.__truediv__}[n['opcode']](b)
+        if k == 'ConditionalOperator' and len(kids(n)) == 3 and self.is_data_cond(kids(n)[0]):
+            # (x is NaN/Inf/missing) ? 0 : x   -- the data filter written as an expression: read through, like the statement form
+            c_, a_, b_ = kids(n)
+            za, zb = self._is_zero_lit(a_), self._is_zero_lit(b_)
+            if za != zb:
+                return self.rat(b_ if za else a_, ienv, fenv)
+            raise Unsupported('conditional expression %s' % self.f.unit.text(n)[:60])
         cr = self.cell_ref(n, ienv)
         if cr:
             return Rat(Poly.atom('%s[%s]' % (cr[0], ']['.join(str(x) for x in cr[1]))))
@@ -223,7 +350,7 @@ class Extractor:
                 return True
             if x.get('kind') == 'CallExpr' and callee_name(x) in ('_isnan_', '_isinf_', 'isfinite', 'isnan', 'isinf'):
                 return True
-            if x.get('kind') in ('DeclRefExpr', 'ArraySubscriptExpr', 'MemberExpr') and fe.is_float_type(x):
+            if x.get('kind') in ('DeclRefExpr', 'ArraySubscriptExpr', 'MemberExpr', 'CallExpr') and fe.is_float_type(x):
                 return True
             if x.get('kind') == 'ArraySubscriptExpr' and getattr(self, 'locals_ok', False):
                 b_ = strip(kids(x)[0])
@@ -256,6 +383,8 @@ class Extractor:
             for vd in kids(s0):
                 if vd.get('kind') == 'VarDecl' and kids(vd) and fe.is_float_type(vd) and '[' not in (vd.get('type') or {}).get('qualType', ''):
                     self.scalar_assign(vd['name'], '=', kids(vd)[-1], loops, ienv, fenv, vd)
+                elif vd.get('kind') == 'VarDecl' and kids(vd) and 'double *' in fe.qual(vd).replace('const ', ''):
+                    self.bind_row_alias(vd.get('id'), kids(vd)[-1], ienv)
             return
         if k == 'ForStmt':
             ind = flow.induction(s0)
@@ -375,6 +504,9 @@ class Extractor:
                 self.store(cr[0], cr[1], s0['opcode'], kids(s0)[1], loops, ienv, fenv, s0)
                 return
             l0 = strip(l)
+            if l0.get('kind') == 'DeclRefExpr' and s0.get('opcode') == '=' and 'double *' in fe.qual(l0).replace('const ', ''):
+                self.bind_row_alias(l0['referencedDecl'].get('id'), kids(s0)[1], ienv)
+                return
             if l0.get('kind') == 'DeclRefExpr' and not fe.is_float_type(l0) and getattr(self, 'locals_ok', False) and s0.get('opcode') == '=':
                 cr2 = self.cell_ref(kids(s0)[1], ienv)
                 if cr2:
@@ -464,6 +596,20 @@ class Extractor:
         r0 = strip(rhs)
         if getattr(self, 'ignore_out', None) and self.ignore_out(arr):
             return                                        # a container the caller declared irrelevant (opt-in)
+        if getattr(self, 'track_old', False):
+            # a temporary computed from this cell before the store keeps the OLD value: evaluate the right-hand side first, then rename
+            cellatom = '%s[%s]' % (arr, ']['.join(str(x) for x in idx))
+            pending = {nm: v for nm, v in fenv.items() if isinstance(v, Rat) and cellatom in v.atoms()}
+            if pending:
+                self._store(arr, idx, op, rhs, loops, ienv, fenv, node)
+                ren = {cellatom: Poly.atom('OLD:' + cellatom)}
+                for nm, v in pending.items():
+                    fenv[nm] = Rat(v.n.subst(ren), v.d.subst(ren))
+                return
+        self._store(arr, idx, op, rhs, loops, ienv, fenv, node)
+
+    def _store(self, arr, idx, op, rhs, loops, ienv, fenv, node):
+        r0 = strip(rhs)
         if op == '=':
             # setter form  X = X + term
             if r0.get('kind') == 'BinaryOperator' and r0.get('opcode') == '+':
@@ -482,7 +628,8 @@ class Extractor:
             for term, lp, nd in self.acc[r0['referencedDecl'].get('name')]:
                 self.emit((arr, idx), '+=', term, lp, nd)
             return
-        if op == '+=' and r0.get('kind') == 'DeclRefExpr' and r0['referencedDecl'].get('name') in self.acc:
+        if op == '+=' and r0.get('kind') == 'DeclRefExpr' and r0['referencedDecl'].get('name') in self.acc and \
+                (r0['referencedDecl'].get('name') not in fenv or r0['referencedDecl'].get('name') in getattr(self, 'promoted', set())):
             for term, lp, nd in self.acc[r0['referencedDecl'].get('name')]:
                 self.emit((arr, idx), '+=', term, lp, nd)
             return
